@@ -75,8 +75,13 @@ def variants_c14(s, rng, k):
 
 def variants_c15(s, rng, k, force_id=False):
     out = []
-    for v in range(k + 1):
-        if v == k:
+    for v in range(k + 2):
+        if v == k + 1:
+            # names that differ only in letter case, references by alias
+            r = {"spelling": "alias" if not force_id else "id", "shuffle": False, "descriptive": False, "seed": rng.randrange(1 << 30), "renumbered": False,
+                 "numeric_names": "case"}
+            out.append((s, S.render(s, random.Random(r["seed"]), r["spelling"], False, False, "case"), r))
+        elif v == k:
             # every entity named like its own id, references by alias
             r = {"spelling": "alias" if not force_id else "id", "shuffle": False, "descriptive": False, "seed": rng.randrange(1 << 30), "renumbered": False,
                  "numeric_names": "own"}
@@ -107,7 +112,7 @@ def run_meta(ctx, variants_fn, n_valid, n_mut, what, rule, trusted, k=4):
         add(S.gen_valid(rng, threads=(i % 2 == 1)), "valid")
     for i in range(n_mut * scale):
         # every sixth mutant is one whose detection could depend on order or spelling
-        only = ("duplicate_composite", "duplicate_milestone", "duplicate_attribute", "identical_operands") if i % 6 == 0 else None
+        only = ("duplicate_composite", "duplicate_milestone", "duplicate_attribute", "identical_operands", "variable_name_repeats_in_chain", "appends_to_settable_collection") if i % 5 == 0 else None
         only = tuple(m for m in (only or ()) if m in M.MUTATORS) or None
         s, name, owner, desc = M.mutate(rng, only=only, threads=(i % 2 == 1))
         add(s, "mutant", name, owner, desc)
